@@ -79,8 +79,10 @@ def r1_r6_connection_from_host(ctx, R1, R6):
         sch_t, port_t = r.truth("p:scheme"), r.truth("p:port")
         want_scheme = "p:scheme" if sch_t is True else (K("http") if sch_t is False else None)
         got_port = (slots.get("port") or "").replace(T("idx", CTX, K("scheme")), slots.get("scheme") or "?")
-        want_port = "p:port" if port_t is True else (T("get", "g:port_by_scheme", T("lower", want_scheme or "?"), "80") if port_t is False else None)
-        key = (sch_t, port_t, slots.get("scheme"), got_port, slots.get("host"), tuple(o[0] for o in order))
+        port_n = r.is_none("p:port")
+        given = True if (port_t is True or port_n is False) else (False if (port_n is True or port_t is False) else None)
+        want_port = "p:port" if given is True else (T("get", "g:port_by_scheme", T("lower", want_scheme or "?"), "80") if given is False else None)
+        key = (sch_t, port_t, port_n, slots.get("scheme"), got_port, slots.get("host"), tuple(o[0] for o in order))
         if key in seen:
             continue
         seen.add(key)
@@ -90,6 +92,12 @@ def r1_r6_connection_from_host(ctx, R1, R6):
         okp = want_port is not None and got_port == want_port
         ctx.ob(R1, cfh.qual, f"absent port defaults from port_by_scheme of the (lower-cased) scheme: port={got_port[:70]} (port given={port_t})", okp,
                "" if okp else f"expected {want_port}", witness=r.witness(), node=cfh.node)
+        if got_port and "p:port" not in got_port:
+            # the default replaces the port of the URL: only an ABSENT port (None) may be replaced - port 0 is a port
+            absent = r.is_none("p:port") is True
+            ctx.ob(R1, cfh.qual, "the default port is substituted only when the port is absent (None), not for port 0", absent,
+                   "" if absent else f"the substitution is decided on the truthiness of the port (truthy={port_t}, is-None undecided): `http://host:0/` is keyed and dialled as port "
+                   "80/443 although the URL names port 0", witness=r.witness(), node=cfh.node)
         keyed = [i for i, o in enumerate(order) if o[0] == "keyed"]
         sets = [i for i, o in enumerate(order) if o[0] == "set" and o[1] in ("port", "host", "scheme")]
         ok6 = len(keyed) == 1 and order[keyed[0]][1] == (CTX,) and bool(sets) and max(sets) < keyed[0]
